@@ -77,6 +77,37 @@ Section ReceiverProofs.
         * eexists. reflexivity.
   Qed.
 
+  (** literal-only streams need no basis at all *)
+  Definition lit_only (t : token) : Prop := match t with Lit _ => True | Ref _ => False end.
+
+  Lemma recv_tokens_exact_lits seed bopt h ts :
+    Forall wf_token ts -> Forall lit_only ts ->
+    forall fuel acc tr rest,
+      (length ts < fuel)%nat -> lenZ tr = 16 ->
+      exists d, denote [] h ts = Some d /\
+        recv_tokens H fuel seed bopt h acc (enc_tokens ts ++ le32 0 ++ tr ++ rest) =
+        if list_eqb (filesum H seed (acc ++ d)) tr
+        then (Commit (acc ++ d), rest) else (Reject (acc ++ d), rest).
+  Proof.
+    induction 1 as [|t ts Ht Hts IH]; intros Hl fuel acc tr rest Hfuel Htr.
+    - exists []. split; [reflexivity|].
+      cbn [enc_tokens flat_map app]. destruct fuel as [|fuel]; [cbn in Hfuel; lia|].
+      cbn [recv_tokens]. rewrite rd32_le32 by lia. rewrite Z.eqb_refl.
+      rewrite <- Htr, take_app, app_nil_r. reflexivity.
+    - inversion Hl as [|? ? Hlt Hl']; subst.
+      destruct t as [bs|i]; [|destruct Hlt]. cbn [wf_token] in Ht.
+      destruct fuel as [|fuel]; [cbn in Hfuel; lia|].
+      cbn [length] in Hfuel. assert (Hf : (length ts < fuel)%nat) by lia.
+      destruct (IH Hl' fuel (acc ++ bs) tr rest Hf Htr) as (d & Hd & E).
+      exists (bs ++ d). cbn [denote]. rewrite Hd. split; [reflexivity|].
+      cbn [enc_tokens flat_map enc_token]. fold (enc_tokens ts).
+      cbn [recv_tokens]. repeat rewrite <- app_assoc. rewrite rd32_le32 by lia.
+      destruct (Z.eqb_spec (lenZ bs) 0) as [E0|_]; [lia|].
+      destruct (Z.ltb_spec 0 (lenZ bs)) as [_|E0]; [|lia].
+      rewrite take_app. repeat rewrite <- app_assoc in E. rewrite E.
+      repeat rewrite <- app_assoc. reflexivity.
+  Qed.
+
   (** ** A commit happens only when the 16 bytes read as the trailer equal
       the whole-file sum of exactly the bytes that were written *)
   Lemma recv_tokens_commit fuel : forall seed basis h acc s bs rest,
